@@ -152,18 +152,6 @@ func (fe *analyticFieldEngine) evaluate(s *Stream, row map[string]any) (result a
 		// WHERE 占位符调用等只设了 FuncName/Expression/Args，退化为单调用。
 		calls = []types.AnalyticCall{{FuncName: fe.af.FuncName, BareCall: fe.af.Expression, Args: fe.af.Args}}
 	}
-	// had_changed(true, *) 按列名比较整行，避免行 schema 变化（列增删/乱序）的位置错位。
-	if fe.af.FuncName == "had_changed" && hasStarArg(fe.af.Args) {
-		if named, ok := states[0].(functions.NamedRowState); ok {
-			ignoreNull := false
-			if len(fe.af.Args) > 0 {
-				ignoreNull = functions.AnalyticToBool(literalValue(fe.af.Args[0]))
-			}
-			result = named.ApplyNamed(ignoreNull, row)
-			fe.lastResults[partKey] = result
-			return result
-		}
-	}
 	// 纯单调用字段（无外层表达式）：直接返回首个调用结果。
 	if fe.af.WrapperExpr == "" {
 		result = fe.applyCall(s, row, calls[0], states[0])
@@ -222,6 +210,18 @@ func (fe *analyticFieldEngine) evalWrapper(data map[string]any) (any, bool, erro
 
 // applyCall 求单个分析调用：解析参数（含 '*' 整行展开），应用到状态机。
 func (fe *analyticFieldEngine) applyCall(s *Stream, row map[string]any, c types.AnalyticCall, state functions.AnalyticState) any {
+	// had_changed(true, *) 按列名比较整行，避免行 schema 变化（列增删/乱序）的位置错位。
+	// Done here so that a call inside a wrapper expression (CASE WHEN had_changed(true, *) ...)
+	// is evaluated the same way and its wrapper still applies.
+	if strings.EqualFold(c.FuncName, "had_changed") && hasStarArg(c.Args) {
+		if named, ok := state.(functions.NamedRowState); ok {
+			ignoreNull := false
+			if len(c.Args) > 0 {
+				ignoreNull = functions.AnalyticToBool(literalValue(c.Args[0]))
+			}
+			return named.ApplyNamed(ignoreNull, row)
+		}
+	}
 	args, err := s.parseFunctionArgs(c.BareCall, row)
 	if err != nil || args == nil {
 		args = []any{}
